@@ -113,7 +113,13 @@ class StaticFileHandler(RequestHandler):
             for index_name in self.default_indices:
                 index_path = file_path / index_name
                 if index_path.exists() and index_path.is_file():
-                    file_path = index_path
+                    # The index file may itself be a symlink: resolve it and
+                    # apply the path traversal protection to the real target
+                    file_path = index_path.resolve()
+                    if not self._is_safe_path(file_path):
+                        return GeminiResponse(
+                            status=StatusCode.NOT_FOUND.value, meta="Not found"
+                        )
                     index_found = True
                     break
 
